@@ -158,7 +158,7 @@ def bytesOfHexChars : List Char → Option Bytes
 def bytesOfHex (s : String) : Option Bytes :=
   if s == "-" then some [] else bytesOfHexChars s.toList
 
-def strBytes (s : String) : Bytes := s.toUTF8.toList
+def strBytes (s : String) : Bytes := s.toUTF8.data.toList
 
 def hexOfString (s : String) : String := hexOfBytes (strBytes s)
 
